@@ -80,6 +80,8 @@ mod gen_fns {
 // This func acquires read locks on global `BREAKER_RULES`,
 // please release your write locks on them before calling this func
 pub fn get_rules_of_resource(res: &String) -> Vec<Arc<Rule>> {
+    #[cfg(flea1lt_sentinel_rust_verif)]
+    crate::verif::sched::point("lk:circuitbreaker.BREAKER_RULES:read");
     let breaker_rules = BREAKER_RULES.read().unwrap();
     let placeholder = HashSet::new();
     let res_rules = breaker_rules.get(res).unwrap_or(&placeholder);
@@ -95,6 +97,8 @@ pub fn get_rules_of_resource(res: &String) -> Vec<Arc<Rule>> {
 // please release your write locks on them before calling this func
 pub fn get_rules() -> Vec<Arc<Rule>> {
     let mut rules = Vec::new();
+    #[cfg(flea1lt_sentinel_rust_verif)]
+    crate::verif::sched::point("lk:circuitbreaker.BREAKER_RULES:read");
     let breaker_rules = BREAKER_RULES.read().unwrap();
     for res_rules in (*breaker_rules).values() {
         for r in res_rules {
@@ -108,12 +112,20 @@ pub fn get_rules() -> Vec<Arc<Rule>> {
 // This func acquires locks on global `BREAKER_RULES`, `CURRENT_RULES` and `BREAKER_MAP`,
 // please release your locks on them before calling this func
 pub fn clear_rules() {
+    #[cfg(flea1lt_sentinel_rust_verif)]
+    crate::verif::sched::point("lk:circuitbreaker.CURRENT_RULES:lock");
     CURRENT_RULES.lock().unwrap().clear();
+    #[cfg(flea1lt_sentinel_rust_verif)]
+    crate::verif::sched::point("lk:circuitbreaker.BREAKER_RULES:write");
     BREAKER_RULES.write().unwrap().clear();
+    #[cfg(flea1lt_sentinel_rust_verif)]
+    crate::verif::sched::point("lk:circuitbreaker.BREAKER_MAP:write");
     BREAKER_MAP.write().unwrap().clear();
 }
 
 pub fn append_rule(rule: Arc<Rule>) -> bool {
+    #[cfg(flea1lt_sentinel_rust_verif)]
+    crate::verif::sched::point("lk:circuitbreaker.CURRENT_RULES:lock");
     if CURRENT_RULES
         .lock()
         .unwrap()
@@ -125,12 +137,16 @@ pub fn append_rule(rule: Arc<Rule>) -> bool {
     }
     match rule.is_valid() {
         Ok(_) => {
+            #[cfg(flea1lt_sentinel_rust_verif)]
+            crate::verif::sched::point("lk:circuitbreaker.CURRENT_RULES:lock");
             CURRENT_RULES
                 .lock()
                 .unwrap()
                 .entry(rule.resource.clone())
                 .or_default()
                 .insert(Arc::clone(&rule));
+            #[cfg(flea1lt_sentinel_rust_verif)]
+            crate::verif::sched::point("lk:circuitbreaker.BREAKER_RULES:write");
             BREAKER_RULES
                 .write()
                 .unwrap()
@@ -150,7 +166,11 @@ pub fn append_rule(rule: Arc<Rule>) -> bool {
     }
     let mut placeholder = Vec::new();
     // same acquisition order as `load_rules`: the breaker map before the breaker rules
+    #[cfg(flea1lt_sentinel_rust_verif)]
+    crate::verif::sched::point("lk:circuitbreaker.BREAKER_MAP:write");
     let mut breaker_map = BREAKER_MAP.write().unwrap();
+    #[cfg(flea1lt_sentinel_rust_verif)]
+    crate::verif::sched::point("lk:circuitbreaker.BREAKER_RULES:read");
     let breaker_rules = BREAKER_RULES.read().unwrap();
     // the helper moves every reused breaker out of the old list into the new one,
     // so the new list is the complete set of breakers of the resource
@@ -184,6 +204,8 @@ pub fn load_rules(rules: Vec<Arc<Rule>>) -> bool {
         entry.insert(rule);
     }
 
+    #[cfg(flea1lt_sentinel_rust_verif)]
+    crate::verif::sched::point("lk:circuitbreaker.CURRENT_RULES:lock");
     let mut global_rule_map = CURRENT_RULES.lock().unwrap();
     if *global_rule_map == rule_map {
         logging::info!(
@@ -215,6 +237,8 @@ pub fn load_rules(rules: Vec<Arc<Rule>>) -> bool {
     }
 
     let start = utils::curr_time_nanos();
+    #[cfg(flea1lt_sentinel_rust_verif)]
+    crate::verif::sched::point("lk:circuitbreaker.BREAKER_MAP:write");
     let mut global_breaker_map = BREAKER_MAP.write().unwrap();
     let mut valid_breaker_map = HashMap::with_capacity(valid_rules_map.len());
 
@@ -240,6 +264,8 @@ pub fn load_rules(rules: Vec<Arc<Rule>>) -> bool {
         )
     }
 
+    #[cfg(flea1lt_sentinel_rust_verif)]
+    crate::verif::sched::point("lk:circuitbreaker.BREAKER_RULES:write");
     *BREAKER_RULES.write().unwrap() = valid_rules_map;
     *global_breaker_map = valid_breaker_map;
     *global_rule_map = rule_map;
@@ -262,12 +288,18 @@ pub fn load_rules_of_resource(res: &String, rules: Vec<Arc<Rule>>) -> Result<boo
         return Err(Error::msg("empty resource"));
     }
     let rules: HashSet<_> = rules.into_iter().collect();
+    #[cfg(flea1lt_sentinel_rust_verif)]
+    crate::verif::sched::point("lk:circuitbreaker.CURRENT_RULES:lock");
     let mut global_rule_map = CURRENT_RULES.lock().unwrap();
+    #[cfg(flea1lt_sentinel_rust_verif)]
+    crate::verif::sched::point("lk:circuitbreaker.BREAKER_MAP:write");
     let mut global_breaker_map = BREAKER_MAP.write().unwrap();
     // clear resource rules
     if rules.is_empty() {
         global_rule_map.remove(res);
         global_breaker_map.remove(res);
+        #[cfg(flea1lt_sentinel_rust_verif)]
+        crate::verif::sched::point("lk:circuitbreaker.BREAKER_RULES:write");
         BREAKER_RULES.write().unwrap().remove(res);
         logging::info!(
             "[CircuitBreakerTrait] clear resource level rules, resource {}",
@@ -302,9 +334,13 @@ pub fn load_rules_of_resource(res: &String, rules: Vec<Arc<Rule>>) -> Result<boo
 
     if new_res_tcs.is_empty() {
         global_breaker_map.remove(res);
+        #[cfg(flea1lt_sentinel_rust_verif)]
+        crate::verif::sched::point("lk:circuitbreaker.BREAKER_RULES:write");
         BREAKER_RULES.write().unwrap().remove(res);
     } else {
         global_breaker_map.insert(res.clone(), new_res_tcs);
+        #[cfg(flea1lt_sentinel_rust_verif)]
+        crate::verif::sched::point("lk:circuitbreaker.BREAKER_RULES:write");
         BREAKER_RULES
             .write()
             .unwrap()
@@ -328,6 +364,8 @@ pub fn load_rules_of_resource(res: &String, rules: Vec<Arc<Rule>>) -> Result<boo
 // This func acquires read locks on global `BREAKER_MAP`,
 // please release your write locks on them before calling this func
 pub fn get_breakers_of_resource(resource: &String) -> Vec<Arc<dyn CircuitBreakerTrait>> {
+    #[cfg(flea1lt_sentinel_rust_verif)]
+    crate::verif::sched::point("lk:circuitbreaker.BREAKER_MAP:read");
     let breakers_map = BREAKER_MAP.read().unwrap();
     let placeholder = Vec::new();
     let res_cbs = breakers_map.get(resource).unwrap_or(&placeholder);
@@ -343,6 +381,8 @@ pub fn register_state_change_listeners(mut listeners: Vec<Arc<dyn StateChangeLis
     if listeners.is_empty() {
         return;
     }
+    #[cfg(flea1lt_sentinel_rust_verif)]
+    crate::verif::sched::point("lk:circuitbreaker.STATE_CHANGE_LISTERNERS:lock");
     STATE_CHANGE_LISTERNERS
         .lock()
         .unwrap()
@@ -351,6 +391,8 @@ pub fn register_state_change_listeners(mut listeners: Vec<Arc<dyn StateChangeLis
 
 /// clear_state_change_listeners clears the all StateChangeListener
 pub fn clear_state_change_listeners() {
+    #[cfg(flea1lt_sentinel_rust_verif)]
+    crate::verif::sched::point("lk:circuitbreaker.STATE_CHANGE_LISTERNERS:lock");
     STATE_CHANGE_LISTERNERS.lock().unwrap().clear();
 }
 
@@ -362,6 +404,8 @@ pub fn set_circuit_breaker_generator(
 ) -> Result<()> {
     match s {
         BreakerStrategy::Custom(_) => {
+            #[cfg(flea1lt_sentinel_rust_verif)]
+            crate::verif::sched::point("lk:circuitbreaker.GEN_FUN_MAP:write");
             GEN_FUN_MAP.write().unwrap().insert(s, generator);
             Ok(())
         }
@@ -374,6 +418,8 @@ pub fn set_circuit_breaker_generator(
 pub fn remove_circuit_breaker_generator(s: &BreakerStrategy) -> Result<()> {
     match s {
         BreakerStrategy::Custom(_) => {
+            #[cfg(flea1lt_sentinel_rust_verif)]
+            crate::verif::sched::point("lk:circuitbreaker.GEN_FUN_MAP:write");
             GEN_FUN_MAP.write().unwrap().remove(s);
             Ok(())
         }
@@ -385,8 +431,14 @@ pub fn remove_circuit_breaker_generator(s: &BreakerStrategy) -> Result<()> {
 
 /// `clear_rules_of_resource` clears resource level rules in circuitBreaker module.
 pub fn clear_rules_of_resource(res: &String) {
+    #[cfg(flea1lt_sentinel_rust_verif)]
+    crate::verif::sched::point("lk:circuitbreaker.BREAKER_RULES:write");
     BREAKER_RULES.write().unwrap().remove(res);
+    #[cfg(flea1lt_sentinel_rust_verif)]
+    crate::verif::sched::point("lk:circuitbreaker.CURRENT_RULES:lock");
     CURRENT_RULES.lock().unwrap().remove(res);
+    #[cfg(flea1lt_sentinel_rust_verif)]
+    crate::verif::sched::point("lk:circuitbreaker.BREAKER_MAP:write");
     BREAKER_MAP.write().unwrap().remove(res);
 }
 
@@ -439,6 +491,8 @@ pub fn build_resource_circuit_breaker(
             continue;
         }
 
+        #[cfg(flea1lt_sentinel_rust_verif)]
+        crate::verif::sched::point("lk:circuitbreaker.GEN_FUN_MAP:read");
         let gen_fun_map = GEN_FUN_MAP.read().unwrap();
         let generator = gen_fun_map.get(&rule.strategy);
         if generator.is_none() {
@@ -465,6 +519,18 @@ pub fn build_resource_circuit_breaker(
         new_res_cbs.push(cb);
     }
     new_res_cbs
+}
+
+/// which of this module's locks are held right now (by anybody, the caller included)
+#[cfg(flea1lt_sentinel_rust_verif)]
+pub fn verif_locks_held() -> Vec<(&'static str, bool)> {
+    vec![
+        ("circuitbreaker.GEN_FUN_MAP", GEN_FUN_MAP.try_write().is_err()),
+        ("circuitbreaker.STATE_CHANGE_LISTERNERS", STATE_CHANGE_LISTERNERS.try_lock().is_err()),
+        ("circuitbreaker.BREAKER_MAP", BREAKER_MAP.try_write().is_err()),
+        ("circuitbreaker.CURRENT_RULES", CURRENT_RULES.try_lock().is_err()),
+        ("circuitbreaker.BREAKER_RULES", BREAKER_RULES.try_write().is_err()),
+    ]
 }
 
 #[cfg(test)]
